@@ -1325,6 +1325,12 @@ class Executor:
             return self.prelude.container_attr(self, obj0, attr, node)
         if isinstance(obj, Closure) and attr == '__name__':
             return Con(obj.fn.name)
+        if isinstance(obj, Builtin) and obj.name == 'type' and attr == '__subclasses__':
+            # type.__subclasses__(cls): the unbound form of cls.__subclasses__()
+            def unbound(X, args, kw, node_):
+                m = X.get_attr(args[0], '__subclasses__', node_)
+                return X.call(m, [], {}, node_)
+            return Builtin('type.__subclasses__', unbound)
         self.unsupported('attribute %s of %r' % (attr, obj), node)
 
     def class_getattr(self, cv, attr, node):
